@@ -91,6 +91,13 @@ fn judge_f2u(v: f64, f32_temp: bool, bits: u32, r: u128) -> Result<f64, String> 
         }
     } else {
         let fl = exact_floor_product(v, max);
+        if fl < (1u128 << 51) {
+            // a product below 2^51 still has its fraction in f64: the nearest integer is decided, not just "one of the
+            // two neighbours" (v * 2^bits is exact; the true product v * (2^bits - 1) is smaller by v < 2^-12)
+            let p = v * (max as f64);
+            let d = (r as f64 - p).abs();
+            return if d <= 0.5 + 1e-3 { Ok(0.0) } else { Err("not_nearest_small_product".into()) };
+        }
         let d = if r > fl { r - fl } else { fl - r };
         let tol = 1 + (fl >> 51);
         if d <= tol {
@@ -291,6 +298,15 @@ fn f64_inputs(ctx: &Ctx) -> Vec<f64> {
                 for d in -2..=2 {
                     v.push(step64(c, d));
                 }
+            }
+        }
+    }
+    // tiny values whose product with 2^64 / 2^128 is a small number with a fraction
+    for bits in [64i32, 128] {
+        for k in 0..40 {
+            for frac in [0.0, 0.25, 0.49, 0.5, 0.51, 0.75, 0.999] {
+                v.push((k as f64 + frac) * (-(bits as f64)).exp2());
+                v.push((k as f64 * 1000.0 + frac) * (-(bits as f64)).exp2());
             }
         }
     }
